@@ -2,6 +2,8 @@
 SPECIFICATION Spec
 CONSTANTS
   Variant = "shomate_S"
+  ShomateOwn <- MCShomateOwn
+  ClassFilter <- MCShomate
 INVARIANT TypeOK
 INVARIANT WellFormed
 INVARIANT Refines
